@@ -27,7 +27,8 @@ ET.register_namespace('xi', XI_NS)
 
 DEFAULT_ARGV = ['--output-dir', '{OUT}', '{MAIN}']
 
-NUMBERS = ['0', '1', '-1', '-0', '+1', ' 1', '1 ', '01', '0x10', '1.5', '1e3', '255', '256', '127', '128', '-128', '-129',
+NUMBERS = ['0', '1', '-1', '-0', '+1', ' 1', '1 ', '01', '00', '000', '-00', '007', '08', '-010', '0' * 300, '0' * 300 + '7',
+           '0x1', '0x10', '1.5', '1e3', '255', '256', '127', '128', '-128', '-129',
            '32767', '32768', '65534', '65535', '65536', '2147483647', '2147483648', '-2147483648', '-2147483649',
            '4294967295', '4294967296', '9223372036854775807', '9223372036854775808', '-9223372036854775808',
            '-9223372036854775809', '18446744073709551615', '18446744073709551616', '9' * 40, '9' * 400, '-' + '9' * 400,
@@ -46,6 +47,21 @@ ATTRS = ['name', 'id', 'type', 'primitiveType', 'length', 'presence', 'offset', 
          'valueRef', 'encodingType', 'dimensionType', 'blockLength', 'sinceVersion', 'deprecated', 'description',
          'semanticType', 'characterEncoding', 'package', 'version', 'byteOrder', 'headerType', 'semanticVersion', 'href']
 REF_ATTRS = ['type', 'encodingType', 'dimensionType', 'headerType', 'valueRef']
+# numbers that stay valid for (nearly) every integer type but are not canonical C++ literals
+ZERO_LED = ['0', '00', '000', '-0', '-00', '007', '08', '09', '010', '-07', '-010', '0' * 60, '0' * 300 + '7', '0' * 5000,
+            '-' + '0' * 300 + '1', '0012', '100', '7']
+FLOAT_TEXTS = ['0', '00', '5', '-5', '007', '010', '1e5', '1E5', '-1e-5', '5.', '.5', '-.5', '0.', '00.5', '1.0', 'NaN', 'INF',
+               '-INF', '+INF', '0' * 300, '1' + '0' * 30, '3e38', '16777217', '9007199254740993', '0x1', '1f', '1.0f']
+# texts that end up between the quotes of generated C++ string / character literals.  @@REF:n@@ becomes the
+# character reference &#n; and @@RAW:hh..@@ the raw bytes hh.. after serialisation
+LITERAL_TEXTS = ['"', "'", '\\', 'abc\\', '\\\\', '\\"', '"\\', '?', '??=', '??/', '??)', "??'", 'a?b', '*/', '/*', '//', '\\n', '\\0',
+                 '\\x41', '\\u0041', '%s', '{}', '{', '}', ')"', 'R"(', ')";int x;//', 'a\nb', 'a\tb', 'a\rb', ' lead', 'trail ',
+                 '@@REF:1@@', '@@REF:7@@', '@@REF:27@@', '@@REF:31@@x', '@@REF:127@@', '@@REF:0@@', 'a@@REF:0@@b', '@@REF:9@@',
+                 '@@REF:10@@', '@@REF:13@@', '@@REF:1@@7', '@@REF:65536@@', '@@REF:1114112@@', '@@REF:55296@@',
+                 '@@RAW:ff@@', '@@RAW:c3@@', '@@RAW:c328@@', '@@RAW:e28228@@', '@@RAW:f0288cbc@@', '@@RAW:c0af@@', '@@RAW:eda080@@',
+                 'x@@RAW:80@@y', '\u00e9', '\u4e2d\u6587', '\U0001f600', '\ufeff', '\u2028', 'x' * 300, 'q"' * 2000, '\\' * 5001,
+                 '?' * 3000, 'y' * 100000]
+TEXT_ATTRS = ['description', 'semanticType', 'characterEncoding', 'semanticVersion']
 TAGS = ['type', 'composite', 'enum', 'set', 'ref', 'validValue', 'choice', 'field', 'group', 'data', 'message', 'types',
         'messageSchema', 'include', 'unknown']
 NUMERIC_ATTRS = ['id', 'length', 'offset', 'blockLength', 'sinceVersion', 'deprecated', 'version', 'minValue', 'maxValue',
@@ -121,7 +137,10 @@ class Garbler:
 
     @staticmethod
     def to_bytes(root):
-        return b'<?xml version="1.0" encoding="UTF-8"?>\n' + ET.tostring(root, encoding='utf-8')
+        data = b'<?xml version="1.0" encoding="UTF-8"?>\n' + ET.tostring(root, encoding='utf-8')
+        data = re.sub(rb'@@REF:(\d+)@@', lambda m: b'&#' + m.group(1) + b';', data)
+        data = re.sub(rb'@@RAW:([0-9a-f]+)@@', lambda m: bytes.fromhex(m.group(1).decode()), data)
+        return data
 
     # ------------------------------------------------------------ tree mutations
     def m_attr_delete(self, root):
@@ -218,6 +237,101 @@ class Garbler:
         if self.r.random() < 0.2:
             e.set('valueRef', self.valueref(root))
         return 'type'
+
+    def m_literal_text(self, root):
+        """texts that the generator pastes into C++ string/character literals; the schema stays valid, so the
+        emission (utils::escape_literal) runs"""
+        r = self.r
+        els = self.elements(root)
+        c = r.random()
+        if c < 0.6:
+            cands = [e for e in els if local(e.tag) in ('type', 'composite', 'enum', 'set', 'validValue', 'choice', 'field',
+                                                        'group', 'data', 'message', 'messageSchema')]
+            if not cands:
+                return None
+            e = r.choice(cands)
+            a = r.choice(TEXT_ATTRS[:2] if local(e.tag) not in ('type', 'messageSchema') else TEXT_ATTRS)
+            if a == 'semanticVersion' and local(e.tag) != 'messageSchema':
+                a = 'description'
+            e.set(a, r.choice(LITERAL_TEXTS))
+            return '%s@%s' % (local(e.tag), a)
+        if c < 0.8:
+            # constant char types: one character and strings, length deduced or padded
+            cands = [e for e in els if local(e.tag) == 'type' and e.get('presence') == 'constant'
+                     and e.get('primitiveType') == 'char' and not e.get('valueRef')]
+            if not cands:
+                cands = [e for e in els if local(e.tag) == 'type' and e.get('presence') in (None, 'required')
+                         and e.get('primitiveType') in ('char',) and e.get('name') not in ('varData',)]
+                if not cands:
+                    return None
+                e = r.choice(cands)
+                e.set('presence', 'constant')
+                for a in ('minValue', 'maxValue', 'nullValue', 'offset'):
+                    e.attrib.pop(a, None)
+            else:
+                e = r.choice(cands)
+            t = r.choice(['"', "'", '\\', '?', 'a"b', "a'b", 'a\\', '\\\\', '??=', '"' * 50, '@@REF:1@@', '@@REF:1@@@@REF:2@@', 'a@@REF:9@@b',
+                          '@@RAW:ff@@', '@@RAW:c3a9@@', '\u00e9', 'ab\\0cd', '%', '{}', 'x' * 3000])
+            e.text = t
+            if r.random() < 0.5:
+                e.attrib.pop('length', None)
+            else:
+                e.set('length', str(r.choice([1, 2, 5, 64, 4000])))
+            return 'const-char-text'
+        # validValue of a char enum
+        cands = [v for e in els if local(e.tag) == 'enum' and e.get('encodingType') == 'char' for v in e]
+        if not cands:
+            return None
+        v = r.choice(cands)
+        v.text = r.choice(['"', "'", '\\', '?', '@@REF:1@@', '@@REF:31@@', '@@REF:127@@', '@@RAW:ff@@', '\u00e9', '%', '{', '0'])
+        return 'validValue-char'
+
+    def m_numeric_text(self, root):
+        """numbers that are valid for the type but not canonical C++ literals (leading zeros, -0, floats
+        without a point); the schema stays valid, so utils::strip_leading_zeros / the float normalisation run"""
+        r = self.r
+        els = self.elements(root)
+        c = r.random()
+        ints = ('int8', 'uint8', 'int16', 'uint16', 'int32', 'uint32', 'int64', 'uint64')
+        if c < 0.55:
+            cands = [e for e in els if local(e.tag) == 'type' and e.get('presence') != 'constant'
+                     and e.get('length') in (None, '1') and e.get('primitiveType') in ints + ('float', 'double')]
+            if not cands:
+                return None
+            e = r.choice(cands)
+            pool = FLOAT_TEXTS if e.get('primitiveType') in ('float', 'double') else ZERO_LED
+            unsigned = (e.get('primitiveType') or '').startswith('u')
+            for a in r.sample(['minValue', 'maxValue', 'nullValue'], r.randint(1, 3)):
+                v = r.choice(pool)
+                if unsigned and v.startswith('-') and r.random() < 0.8:
+                    v = v[1:]
+                e.set(a, v)
+            if r.random() < 0.5:
+                e.set('presence', 'optional')
+            return 'type@min/max/null:%s' % e.get('primitiveType')
+        if c < 0.75:
+            cands = [e for e in els if local(e.tag) == 'type' and e.get('presence') == 'constant'
+                     and e.get('primitiveType') in ints + ('float', 'double') and not e.get('valueRef')]
+            if not cands:
+                return None
+            e = r.choice(cands)
+            e.text = r.choice(FLOAT_TEXTS if e.get('primitiveType') in ('float', 'double') else ZERO_LED).lstrip(
+                '-' if (e.get('primitiveType') or '').startswith('u') else '')
+            return 'const:%s' % e.get('primitiveType')
+        if c < 0.9:
+            cands = [v for e in els if local(e.tag) == 'enum' and e.get('encodingType') != 'char' for v in e]
+            if not cands:
+                return None
+            v = r.choice(cands)
+            v.text = r.choice(['0', '00', '007', '08', '010', '0' * 100 + '5', '-0', '-07'])
+            return 'validValue'
+        cands = [e for e in els if e.get('id') or e.get('sinceVersion') or e.get('blockLength') or e.get('offset')]
+        if not cands:
+            return None
+        e = r.choice(cands)
+        a = r.choice([x for x in ('id', 'sinceVersion', 'deprecated', 'blockLength', 'offset', 'version') if e.get(x)] or ['id'])
+        e.set(a, '0' * r.choice([1, 2, 50, 1000]) + (e.get(a) or '1'))
+        return '%s@%s' % (local(e.tag), a)
 
     def m_elem_delete(self, root):
         pm = self.parent_map(root)
@@ -413,7 +527,7 @@ class Garbler:
         ('elem-move', 'm_elem_move', 8), ('elem-swap', 'm_elem_swap', 3), ('elem-rename', 'm_elem_rename', 5),
         ('text-garble', 'm_text_garble', 5), ('ref-retarget', 'm_ref_retarget', 12), ('header-garble', 'm_header_garble', 8),
         ('name-clash', 'm_name_clash', 6), ('long-name', 'm_long_name', 2), ('schema-attr', 'm_schema_attr', 4),
-        ('many', 'm_many', 1),
+        ('many', 'm_many', 1), ('literal-text', 'm_literal_text', 12), ('numeric-text', 'm_numeric_text', 10),
     ]
 
     def tree_case(self, xml_text):
